@@ -128,18 +128,18 @@ pub fn content_addressed() {
 }
 
 /// reference model of the write-once contract
-struct Model(Vec<(String, Vec<u8>)>);
+pub struct Model(pub Vec<(String, Vec<u8>)>);
 
 impl Model {
-    fn write(&mut self, k: &str, v: &[u8]) {
+    pub fn write(&mut self, k: &str, v: &[u8]) {
         if !self.0.iter().any(|(k2, _)| k2 == k) {
             self.0.push((k.to_string(), v.to_vec()));
         }
     }
-    fn get(&self, k: &str) -> Option<&Vec<u8>> {
+    pub fn get(&self, k: &str) -> Option<&Vec<u8>> {
         self.0.iter().find(|(k2, _)| k2 == k).map(|(_, v)| v)
     }
-    fn list(&self, ext: &str) -> Vec<String> {
+    pub fn list(&self, ext: &str) -> Vec<String> {
         let mut out: Vec<String> = self.0.iter().filter(|(k, _)| k.ends_with(ext)).map(|(k, _)| k[..k.len() - ext.len()].to_string()).collect();
         out.sort();
         out
